@@ -314,7 +314,8 @@ Fixpoint simp (fuel : nat) (st : stack) (bound : list string) (c : nat) (e : exp
             match v' with
             | Tuple es | List es =>
                 match const_index k with
-                | Some n => let* r := seq_project es n in Ok (r, c2)
+                | Some n => if existsb is_starred es then default     (* no fixed positions: left alone *)
+                            else let* r := seq_project es n in Ok (r, c2)
                 | None => default
                 end
             | Dict ks vs =>
